@@ -471,6 +471,7 @@ CHECKS = {
         "tests": [
             {"name": "TestC17MonitorWindow", "kind": "plain", "quick": 1, "thorough": 1, "shards": {"quick": 1, "thorough": 1}},
             {"name": "TestC17", "quick": 240, "thorough": 12000},
+            {"name": "TestC17Tokens", "quick": 400, "thorough": 12000},
         ],
     },
     "C18": {
